@@ -129,7 +129,11 @@ def run(ctx):
             except Exception as e:  # noqa
                 site = io.exc_site(e)
                 k = "%s: %s" % (type(e).__name__, " ".join(str(e).split())[:60])
-                if rname == "ai" and io.third_party_parser_reject(e):
+                req = io.missing_domain_requirement(e) if rname == "ai" else None
+                if req is not None:
+                    ctx.fail("impl-exception", "the written domain uses a construct whose requirement %s it does not declare (strict parser: %s)" % (req, str(e)[:100]),
+                             ["c18", "reader-ai", "writer-requirements", "missing" + req] + sorted(feats), dict(payload, reader=rname), True)
+                elif rname == "ai" and io.third_party_parser_reject(e):
                     stats["ai_parser_rejects"][k.split(" at line")[0][:60]] = stats["ai_parser_rejects"].get(k.split(" at line")[0][:60], 0) + 1
                 elif type(e).__name__ in io.DOCUMENTED and rname == "ai":
                     stats["reader_documented_unsupported"][k] = stats["reader_documented_unsupported"].get(k, 0) + 1
